@@ -3,6 +3,30 @@
 import json, sys
 
 CLAIMED = {
+    "C02": dict(
+        category="exploration",
+        technique="bounded-exhaustive input enumeration on the real reader thread: all digit counts 0..64, all 32 DF x both lengths, all single decoration insertions, against an independent acceptance rule",
+        text="Every digit count 0..64, every DF value at both frame lengths (with and without the 12-digit prefix) and every single insertion of each decoration symbol at every position are executed as one-line runs of the real reader thread on an empty and a populated table; acceptance is compared with an independently written rule, decorated lines with their bare digit strings (bit-identical tables). This enumerates exactly the finite families the property quantifies over; longer decorations are covered pairwise in the thorough tier.",
+        note="Trusted: reference acceptance rule (refmodel/accept.rs) and CRC-24 encoder (validated against the repository's pinned frames). DFs outside the nine supported formats are only judged for no-crash, invariance and length agreement.",
+        design="DESIGN.md §5 C02", engine="E1 sweep"),
+    "C04": dict(
+        category="exploration",
+        technique="bounded-exhaustive error-pattern enumeration (all 1-/2-bit errors, all bursts up to 12/24 bits with every interior pattern) executed on the real get_message and reader thread, verdict from an independent CRC-24",
+        text="For eight valid base squitters every 1-bit, every 2-bit and every burst error pattern (<=12 bits quick, <=24 thorough, all interior patterns) confined to bits 6..112 is applied; the expected verdict is computed with an independent bit-serial CRC-24 (DF11: upper 17 bits), and the real code must agree through get_message and, at table level, leave an empty and a populated table bit-identical. Exhaustive over the stated pattern families.",
+        note="Trusted: reference CRC-24 (frames.rs; checked against pinned frames and linearity). Heavier random patterns are not part of the verdict.",
+        design="DESIGN.md §5 C04", engine="E1 sweep"),
+    "C06": dict(
+        category="exploration",
+        technique="complete-domain enumeration: all 2^13 identity codes x DF5/DF21 x paths x option sets through the real reader thread vs an independent octal decoder",
+        text="All 8192 identity-field values in DF5 and DF21, under two/three settings of the remaining bits, as first frame and as update of a row holding a sentinel squawk, under {default,-U,-R,-U -R}: each executed through the real reader thread and compared with an independent A/B/C/D decoder; plus every other supported format applied to a row with a squawk (must not change it).",
+        note="Trusted: the reference bit order C1 A1 C2 A2 C4 A4 X B1 D1 B2 D2 B4 D4. A DF21 that creates the row may contribute the address only (stated).",
+        design="DESIGN.md §5 C06", engine="E1 sweep"),
+    "C16": dict(
+        category="model_checking",
+        technique="explicit enumeration of all input sequences up to depth 4/5 over a 15-symbol alphabet x 15 filter sets, every prefix observed on the real reader's stdout, against a reference counter fold; CLI trace conformance",
+        text="All sequences of length 4 (5 in thorough) over a 15-symbol alphabet (one accepted frame of each DF, a second aircraft, zero address, bad parity, junk) under 15 filter sets are run through the real reader thread with --update=-1 -c, so every prefix prints its counter line; each line is compared with a reference fold, refresh counts with accepted filter-passing frames, and the -f table with the table of the filtered sub-stream. All sequences up to length 3 are also run through the real release CLI and compared byte for byte.",
+        note="Trusted: which alphabet symbols are accepted frames is known by construction (frames built with the reference CRC). DF24 counts under its own DF; its address reading is not judged.",
+        design="DESIGN.md §5 C16", engine="E2-style sequence enumeration"),
     "C17": dict(
         category="exploration",
         technique="bounded-exhaustive enumeration: complete 2^24 address domain executed on the real constructor and reader thread, compared with an independent allocation table",
